@@ -158,6 +158,7 @@ The coefficient type is abstract (operations passed explicitly) so that the same
 on integer vectors modulo `X^{N/2} + 1` and is reasoned about over any commutative ring. -/
 
 structure CoefOps (α : Type) where
+  zero : α
   add : α → α → α
   sub : α → α → α
   /-- multiplication by `ω_N^e` -/
@@ -172,7 +173,12 @@ def applyFfftOp {α : Type} (O : CoefOps α) (N : Nat) (v : Nat → α) (op : Ff
   | .f0 q => fun i =>
       if i = q then O.add (v q) (v (q + 1)) else if i = q + 1 then O.sub (v q) (v (q + 1)) else v i
   | .twiddle k n q => fun i => if i = q then O.rot (k * (N / n)) (v q) else v i
-  | .prime _ _ => v
+  | .prime start p => fun i =>
+      -- `bogoliubov_transform(qubits[start : start+p], fft_matrix(p))`: `a†_k ↦ p^{-1/2} Σ_j ω_p^{kj} a†_j`, so on
+      -- coefficient vectors `v'[k] = Σ_j ω_p^{jk} v[j]` (the factor `p^{-1/2}` kept out, like `2^{-1/2}` of `F0`)
+      if start ≤ i ∧ i < start + p then
+        (List.range p).foldl (fun acc j => O.add acc (O.rot ((i - start) * j * (N / p)) (v (start + j)))) O.zero
+      else v i
 
 def runFfft {α : Type} (O : CoefOps α) (N : Nat) (ops : List FfftOp) (v : Nat → α) : Nat → α :=
   ops.foldl (applyFfftOp O N) v
@@ -186,9 +192,27 @@ def negaRot (h e : Nat) (x : List Int) : List Int :=
     if flip then -c else c
 
 def negaOps (h : Nat) : CoefOps (List Int) where
+  zero := List.replicate h 0
   add a b := List.zipWith (· + ·) a b
   sub a b := List.zipWith (· - ·) a b
   rot e x := negaRot h e x
+
+/-- integer polynomials modulo `X^N − 1`, `ω_N = X` (any `N`; the identification `X^{N/2} = −1` for even `N`
+holds only after evaluation at a primitive root, which is what the harness does) -/
+def cycOps (N : Nat) : CoefOps (List Int) where
+  zero := List.replicate N 0
+  add a b := List.zipWith (· + ·) a b
+  sub a b := List.zipWith (· - ·) a b
+  rot e x := (List.range N).map fun i => x.getD ((i + N - e % N) % N) 0
+
+/-- the single-particle matrix of `ffft` on any `n ≥ 1` modes (without the factor `n^{-1/2}`), entries as integer
+polynomials in `ω_n` modulo `ω_n^n = 1` -/
+def ffftSimCyc (n : Nat) : List (List (List Int)) :=
+  let zero : List Int := List.replicate n 0
+  let one : List Int := (List.range n).map fun i => if i = 0 then 1 else 0
+  (List.range n).map fun k =>
+    let v := runFfft (cycOps n) n (ffftOps n) (fun i => if i = k then one else zero)
+    (List.range n).map v
 
 /-- the single-particle matrix of `ffft` on `n = 2^m ≥ 2` modes (without the factor `n^{-1/2}`), entries as
 integer polynomials in `ω_n` modulo `ω_n^{n/2} = −1`: row `k` = the operations applied to the unit vector `e_k` -/
